@@ -708,12 +708,22 @@ func TestCommandLinesNeverCrash(t *testing.T) {
 		_ = os.WriteFile(filepath.Join(dir, "pat.ebnf"), []byte("grammar pat;\nAB = /[\\x0100](/\nstart = AB;\n"), 0o644)
 		_ = os.WriteFile(filepath.Join(dir, "conf.ebnf"), []byte("grammar conf;\nstart = start \"+\" start | \"i\";\n"), 0o644)
 		_ = os.WriteFile(filepath.Join(dir, "cyc.ebnf"), []byte("grammar cyc;\nstart = x;\nx = \"a\" | ;\n"), 0o644)
+		{
+			// exactly 256 problems (an exit status is one byte)
+			var b strings.Builder
+			b.WriteString("grammar many;\nstart = \"x\"")
+			for i := 0; i < 256; i++ {
+				fmt.Fprintf(&b, " | undef_%d", i)
+			}
+			b.WriteString(";\n")
+			_ = os.WriteFile(filepath.Join(dir, "many.ebnf"), []byte(b.String()), 0o644)
+		}
 		_ = os.WriteFile(filepath.Join(dir, "empty.ebnf"), nil, 0o644)
 		_ = os.WriteFile(filepath.Join(dir, "bin.ebnf"), []byte{0xff, 0xfe, 0x00, 0x80, 'g', 'r'}, 0o644)
 		_ = os.WriteFile(filepath.Join(dir, "noperm.ebnf"), []byte("grammar np;\nstart = \"a\";\n"), 0o000)
 		_ = os.Mkdir(filepath.Join(dir, "adir"), 0o755)
 		_ = os.Mkdir(filepath.Join(dir, "out"), 0o755)
-		pool := []string{"ok.ebnf", "bad.ebnf", "sem.ebnf", "pat.ebnf", "conf.ebnf", "cyc.ebnf", "empty.ebnf", "bin.ebnf", "noperm.ebnf", "adir", "missing.ebnf", "",
+		pool := []string{"many.ebnf", "ok.ebnf", "bad.ebnf", "sem.ebnf", "pat.ebnf", "conf.ebnf", "cyc.ebnf", "empty.ebnf", "bin.ebnf", "noperm.ebnf", "adir", "missing.ebnf", "",
 			"-out", "-out=out", "-out=missing", "-out=ok.ebnf", "-name", "-name=pkg", "-name=9x", "-name=func", "-name=", "-debug", "-verbose", "-help", "-version", "-h", "--help", "-x", "--", "-", "-out=", "-debug=maybe", "-verbose=2",
 			"out", "-name=a/b", "-name=..", "=", "-=", "- -", "-out=ok.ebnf/sub", "-out=out/" + strings.Repeat("n", 300), "-out=missing/deeper", "-name=" + strings.Repeat("n", 300)}
 		n := rapid.IntRange(0, 4).Draw(t, "nargs")
@@ -753,7 +763,7 @@ func TestCommandLinesNeverCrash(t *testing.T) {
 				}
 			}
 			switch file {
-			case "bad.ebnf", "sem.ebnf", "pat.ebnf", "conf.ebnf", "empty.ebnf", "bin.ebnf", "adir", "missing.ebnf":
+			case "many.ebnf", "bad.ebnf", "sem.ebnf", "pat.ebnf", "conf.ebnf", "empty.ebnf", "bin.ebnf", "adir", "missing.ebnf":
 				if !info {
 					err = fmt.Errorf("emerge %q exits with status 0 although %s cannot be accepted", args, file)
 				}
